@@ -208,6 +208,8 @@ type EthArgs struct {
 	Data     []byte
 	ChainID  *big.Int // nil: this chain
 	Accesses *ethtypes.AccessList
+	// Unprotected: sign a legacy tx without chain id (pre-EIP-155)
+	Unprotected bool
 }
 
 func (w *World) EthChainID() *big.Int {
@@ -258,7 +260,7 @@ func (w *World) NewEthMsg(a *Account, e EthArgs) (*evmtypes.MsgEthereumTx, error
 		args.GasFeeCap = price
 		tip := e.Tip
 		if tip == nil {
-			tip = new(big.Int)
+			tip = price // default: willing to pay the whole cap (passes any min-gas-price floor the cap passes)
 		}
 		args.GasTipCap = tip
 		al := e.Accesses
@@ -269,7 +271,10 @@ func (w *World) NewEthMsg(a *Account, e EthArgs) (*evmtypes.MsgEthereumTx, error
 	}
 	msg := evmtypes.NewTx(args)
 	msg.From = a.Eth.Hex()
-	signer := ethtypes.LatestSignerForChainID(chainID)
+	var signer ethtypes.Signer = ethtypes.LatestSignerForChainID(chainID)
+	if e.Unprotected {
+		signer = ethtypes.HomesteadSigner{}
+	}
 	if err := msg.Sign(signer, testtx.NewSigner(a.Priv)); err != nil {
 		return nil, err
 	}
